@@ -53,7 +53,10 @@ from partitura.utils.misc import (
     deprecated_parameter,
 )
 
-from partitura.musicanalysis.performance_codec import get_time_maps_from_alignment
+from partitura.musicanalysis.performance_codec import (
+    get_time_maps_from_alignment,
+    get_matched_notes,
+)
 
 __all__ = ["save_match"]
 
@@ -180,12 +183,24 @@ def matchfile_from_alignment(
     # Measure map (which measure corresponds to which time point in divs)
     beat_map = spart.beat_map
 
-    ptime_to_stime_map, _ = get_time_maps_from_alignment(
-        ppart_or_note_array=ppart.note_array(),
-        spart_or_note_array=spart.note_array(),
-        alignment=alignment,
-        remove_ornaments=True,
-    )
+    snote_array = spart.note_array()
+    matched_idxs = get_matched_notes(snote_array, ppart.note_array(), alignment)
+    if (
+        len(matched_idxs) > 0
+        and (snote_array[matched_idxs[:, 0]]["duration_beat"] > 0).any()
+    ):
+        ptime_to_stime_map, _ = get_time_maps_from_alignment(
+            ppart_or_note_array=ppart.note_array(),
+            spart_or_note_array=snote_array,
+            alignment=alignment,
+            remove_ornaments=True,
+        )
+    else:
+        # no score note with a duration is matched, hence there is no time
+        # map: the lines of the performed notes without a score note follow
+        # those of the score notes (NaN is sorted last)
+        def ptime_to_stime_map(perf_time):
+            return np.nan
 
     measures = np.array(list(spart.iter_all(score.Measure)))
     measure_starts_divs = np.array([m.start.t for m in measures])
